@@ -173,3 +173,47 @@ def stats(cases):
 
 def key(case):
     return json.dumps([case["nrx"], case["ncols"], case["dt"], case["t0"], case["ops"]])
+
+
+# ------------------------------------------------------------------ evaluation INSIDE Coq, in exact rationals (no extraction, no OCaml, no doubles)
+def extra_checks(ctx):
+    """Histories without a partition are written into coq/Gen/CasesC20.v: the queue model over Q (Base/Arith.v: ArithQ) is run by
+    vm_compute on the same operations, and its final table must EQUAL the one the implementation reported (all generated times and
+    amounts are dyadic, so the doubles are exact rationals).  coqc accepting the file is the agreement."""
+    import os, re, subprocess
+    from harness import common as C
+    def q(x):
+        f = Fr(x); return "(%d # %d)%%Q" % (f.numerator, f.denominator)
+    sel = []
+    for c, r in zip(ctx["cases"], ctx["impl_res"]):
+        if isinstance(r, dict) and "line" in r and not any(op[0] == "B" for op in c["ops"]) and len(c["ops"]) <= 80: sel.append((c, r))
+    sel = sel[: (60 if ctx["tier"] == "quick" else 600)]
+    if not sel: return {}
+    lines = ["(* GENERATED by harness/props/c20.py on every run -- do not edit *)", "From Coq Require Import ZArith QArith List.",
+             "From BS Require Import Base.Arith Model.Queue.", "Import ListNotations.", "",
+             "Inductive op := OA (t : Q) (r : nat) (a : Q) | OP | OT (t : Q).",
+             "Definition step (q : option (queue Q Q)) (o : op) : option (queue Q Q) :=",
+             "  match q with None => None | Some q => match o with OA t r a => q_add ArithQ Qplus q t r a | OP => Some (q_advance ArithQ 0%Q q) | OT t => Some (q_set_time ArithQ q t) end end.",
+             "Definition dump (nrx ncols : nat) (q : option (queue Q Q)) : option (Q * list (list Q)) :=",
+             "  match q with None => None | Some q => Some (Qred (q_next_time q), map (fun off => map (fun r => Qred (q_pending 0%Q q off r)) (seq 0 nrx)) (seq 0 ncols)) end.", ""]
+    for k, (c, r) in enumerate(sel):
+        ops = []
+        for op in c["ops"]:
+            if op[0] == "A": ops.append("OA %s %d %s" % (q(op[1]), op[2], q(op[3])))
+            elif op[0] == "P": ops.append("OP")
+            elif op[0] == "T": ops.append("OT %s" % q(op[1]))
+        toks = r["line"].split(); e = len(toks) - 1 - toks[::-1].index("E"); fin = toks[e + 1:]
+        nrx, ncols = c["nrx"], c["ncols"]
+        tab = "[" + "; ".join("[" + "; ".join(q(float.fromhex(fin[1 + off * nrx + rr])) for rr in range(nrx)) + "]" for off in range(ncols)) + "]"
+        lines.append("Example hist_%d : dump %d %d (fold_left step [%s] (Some (q_make ArithQ 0%%Q %d %d %s %s))) = Some (%s, %s). Proof. vm_compute. reflexivity. Qed."
+                     % (k, nrx, ncols, "; ".join(ops), nrx, ncols, q(c["dt"]), q(c["t0"]), q(float.fromhex(fin[0])), tab))
+    gen = os.path.join(C.COQ, "Gen", "CasesC20.v"); os.makedirs(os.path.dirname(gen), exist_ok=True)
+    open(gen, "w").write("\n".join(lines) + "\n")
+    p = subprocess.run(["timeout", "900", "coqc", "-Q", ".", "BS", "Gen/CasesC20.v"], cwd=C.COQ, stdout=subprocess.PIPE, stderr=subprocess.STDOUT, text=True)
+    fails = []
+    if p.returncode != 0:
+        m = re.search(r'line (\d+)', p.stdout); ln = int(m.group(1)) if m else 0
+        which = lines[ln - 1] if 0 < ln <= len(lines) else ""
+        mk = re.match(r'Example hist_(\d+)', which); k = int(mk.group(1)) if mk else 0
+        fails.append((sel[min(k, len(sel) - 1)][0], "in-Coq evaluation: the queue model over Q, run by vm_compute, ends in another table than the implementation (%s)" % (p.stdout.strip().splitlines()[-1][:200] if p.stdout.strip() else "coqc failed")))
+    return {"oracle_fail": fails, "coverage": {"histories_evaluated_inside_coq": len(sel), "operations_evaluated_inside_coq": sum(len(c["ops"]) for c, r in sel)}}
